@@ -192,10 +192,12 @@ def sec_result(run, drv, pend, rng, case, tmp):
     try:
         with b.quiet():
             d = res.to_dict()
-        tdl = encs(d["test_distribution"], canon=True)
+        tdl = encs(d["test_distribution"], canon=True) if isinstance(d, dict) and "test_distribution" in d else None
     except Exception as e:
         d, tdl = None, _werr(e)
-    if not (isinstance(td, dict) and any(key_tok(k).startswith("kx") for k in td)):      # list(d) of unhashable-for-json keys: no kind
+    if tdl is None:
+        run.count("result:to_dict-without-a-test_distribution-member(recorded; the round trip is judged below)")
+    elif not (isinstance(td, dict) and any(key_tok(k).startswith("kx") for k in td)):      # list(d) of unhashable-for-json keys: no kind
         pend.append(("eq:c18_tdlist", dict(case, field="test_distribution"), drv.ask("c18_tdlist " + encs(td, td=True)), tdl))
     if d is None:
         return
@@ -569,7 +571,14 @@ def sec_regdict(run, drv, pend, rng, case, tmp):
     nm = "N" if name is None else b.hexs(name) + "."
     ostr = ",".join(f"{b.f64tok(a)}:{b.f64tok(c)}" for a, c in origins)
     pend.append(("eq:c18_regto", case, drv.ask(f"c18_regto {nm} {b.f64tok(dh)} {ostr}"), encs(d, canon=True)))
-    dd = damage(rng, d, kind)
+    try:
+        dd = damage(rng, d, kind)
+    except (KeyError, TypeError, IndexError, AttributeError, ValueError):
+        # what to_dict wrote does not have the members this damage edits (a member renamed / dropped / restructured in to_dict):
+        # the damage is skipped; the PROPERTY is judged on the undamaged dictionary below (if from_dict cannot rebuild the region
+        # from what to_dict wrote, that is an oracle failure with this region as replay)
+        run.count("regdict:dictionary-shape-differs(damage skipped, property judged on the undamaged dictionary)")
+        kind, dd = "none", copy.deepcopy(d)
     through_file = isinstance(dd, dict) and rng.random() < 0.5
     try:
         if through_file:
@@ -582,7 +591,12 @@ def sec_regdict(run, drv, pend, rng, case, tmp):
         impl = region_summary(x)
     except ERRS as e:
         x, impl = None, type(e).__name__
-    pend.append(("eq:c18_regdict", dict(case, damage=kind), drv.ask("c18_regdict " + encs(dd)), impl))
+        if kind == "none":
+            run.oracle_failure(dict(case, damage=kind), f"the dictionary to_dict() wrote cannot be rebuilt into a region: {type(e).__name__}: {e}")
+    try:
+        pend.append(("eq:c18_regdict", dict(case, damage=kind), drv.ask("c18_regdict " + encs(dd)), impl))
+    except Exception:
+        run.count("regdict:dictionary-not-encodable-for-the-model(recorded)")
     # the property on an undamaged dictionary of a region WITH magnitudes bound: same index for every probe
     if x is not None and kind in ("none", "mags", "mags-empty", "extra-key", "del-class_id", "class_id-other", "del-name",
                                   "null-name"):
@@ -602,10 +616,15 @@ def sec_regdict(run, drv, pend, rng, case, tmp):
     a = [b.locate(r, p) for p in probes]
     try:
         earlier = r.to_dict()
-        for p in earlier["polygons"]:
-            p["lon"] += dh / 2
-            p["lat"] += dh / 2
-        earlier["polygons"].reverse()
+        # edit whatever the dictionary holds (its members may be named / shaped differently after a rewrite of to_dict)
+        for v_ in (list(earlier.values()) if isinstance(earlier, dict) else []):
+            if isinstance(v_, list):
+                for p in v_:
+                    if isinstance(p, dict):
+                        for kk in list(p):
+                            if isinstance(p[kk], float):
+                                p[kk] += dh / 2
+                v_.reverse()
         if through_file:
             path = os.path.join(tmp, "rd2.json")
             with b.quiet():
@@ -751,7 +770,11 @@ def flush_one(run, what, case, o, impl):
         if what.startswith("eq?:") and o == "unmodelled":
             run.count("unmodelled:" + what[4:])
             return True
-        if o != impl:
+        if o != impl and what == "eq:c18_regto":
+            # the NAMES / layout of the members to_dict writes are a file format, not the property (which asks that the region
+            # rebuilt from the dictionary indexes identically - judged by the oracle on every region): recorded
+            run.count("regto:dictionary-form-differs-from-the-model(recorded)")
+        elif o != impl:
             if o == "err" or o == "none" or o[:1].isupper():
                 # the MODEL refuses this input (damaged dictionary, malformed text, unknown stored class, scalar distribution …):
                 # it is outside what the property quantifies over; which error the code raises, or whether a more forgiving
